@@ -179,14 +179,17 @@ class SmtLibSolver(Solver): # TODO this class is defined twice in pysmt. Here an
 
     @clear_pending_pop
     def push(self, levels=1):
-        self.declared_vars.append(set())
-        self.declared_sorts.append(set())
+        # One frame of declarations for each level
+        for _ in range(levels):
+            self.declared_vars.append(set())
+            self.declared_sorts.append(set())
         self._send_silent_command(SmtLibCommand(smtcmd.PUSH, [levels]))
 
     @clear_pending_pop
     def pop(self, levels=1):
-        self.declared_vars.pop()
-        self.declared_sorts.pop()
+        for _ in range(levels):
+            self.declared_vars.pop()
+            self.declared_sorts.pop()
         self._send_silent_command(SmtLibCommand(smtcmd.POP, [levels]))
 
     def get_value(self, item):
